@@ -1,6 +1,7 @@
 package engine
 
 import (
+	"bufio"
 	"bytes"
 	"context"
 	"fmt"
@@ -159,9 +160,24 @@ func (e *Engine) Solve(rep *FuncReport, scratch string) {
 		cctx, cancel := context.WithTimeout(context.Background(), time.Duration(len(order)*tmo/1000+20)*time.Second)
 		cmd := exec.CommandContext(cctx, "z3-new", "-smt2", f)
 		var out bytes.Buffer
-		cmd.Stdout = &out
+		var stamps []float64
+		pipe, _ := cmd.StdoutPipe()
 		cmd.Stderr = &out
-		_ = cmd.Run()
+		t0 := time.Now()
+		if err := cmd.Start(); err == nil {
+			sc := bufio.NewScanner(pipe)
+			sc.Buffer(make([]byte, 1<<20), 1<<20)
+			last := t0
+			for sc.Scan() {
+				l := strings.TrimSpace(sc.Text())
+				out.WriteString(l + "\n")
+				if l == "sat" || l == "unsat" || l == "unknown" || l == "timeout" {
+					stamps = append(stamps, time.Since(last).Seconds())
+					last = time.Now()
+				}
+			}
+			_ = cmd.Wait()
+		}
 		cancel()
 		lines := strings.Split(strings.TrimSpace(out.String()), "\n")
 		var answers []string
@@ -181,6 +197,9 @@ func (e *Engine) Solve(rep *FuncReport, scratch string) {
 		}
 		for i, ob := range order {
 			if i < len(answers) {
+				if i < len(stamps) {
+					ob.TimeS = stamps[i]
+				}
 				ob.Backend = "z3-5.1.0 (batch)"
 				if light {
 					ob.Backend = "z3-5.1.0 (batch, quantifier-free hypotheses only)"
